@@ -111,7 +111,9 @@ pub fn pref() -> impl Strategy<Value = PRef> {
 }
 
 pub fn ustep() -> impl Strategy<Value = UStep> {
-    (0u8..12, any::<u16>(), any::<u8>(), any::<u128>()).prop_map(|(kind, parent, a, bits)| UStep {
+    // parent 0xFFFF maps to the previously derived member, so a third of the steps continue a chain
+    // (nested prefixes, deep tries); the rest branch off a random earlier member
+    (0u8..12, prop_oneof![2 => any::<u16>(), 1 => Just(0xFFFFu16)], any::<u8>(), any::<u128>()).prop_map(|(kind, parent, a, bits)| UStep {
         kind,
         parent,
         a,
